@@ -183,6 +183,8 @@ pub struct Ctx {
     pub byte_factory: ParserFactory,
     pub byte_grammar: llguidance::api::TopLevelGrammar,
     pub tokref: bool,
+    /// token ids named by `<[...]>` expressions of the grammar text: (lo, hi, negated)
+    pub tokref_ranges: Vec<(u64, u64, bool)>,
     /// lexer-sharing groups poisoned by an interruption (shared by all tasks)
     pub poisoned: std::sync::Mutex<Vec<usize>>,
     pub lexer_err_groups: std::sync::Mutex<Vec<usize>>,
@@ -211,6 +213,32 @@ impl Ctx {
             .map(|e| e.has("tokref"))
             .unwrap_or(sc.world.grammar_text.contains("<[") || sc.world.grammar_text.contains("<|"));
         let byte_grammar = top_level_grammar(sc.world.grammar_kind, &sc.world.grammar_text)?;
+        let mut tokref_ranges = vec![];
+        {
+            let t = &sc.world.grammar_text;
+            let mut i = 0;
+            while let Some(p) = t[i..].find("<[") {
+                let st = i + p + 2;
+                let en = match t[st..].find("]>") {
+                    Some(e) => st + e,
+                    None => break,
+                };
+                let body = &t[st..en];
+                let (neg, body) = match body.strip_prefix('^') {
+                    Some(b) => (true, b),
+                    None => (false, body),
+                };
+                for part in body.split(',') {
+                    let mut it = part.trim().splitn(2, '-');
+                    let lo = it.next().and_then(|x| x.trim().parse::<u64>().ok());
+                    let hi = it.next().map(|x| x.trim().parse::<u64>().ok()).unwrap_or(lo);
+                    if let (Some(lo), Some(hi)) = (lo, hi) {
+                        tokref_ranges.push((lo, hi, neg));
+                    }
+                }
+                i = en + 2;
+            }
+        }
         Ok(Ctx {
             sc: sc.clone(),
             world,
@@ -220,6 +248,7 @@ impl Ctx {
             byte_factory,
             byte_grammar,
             tokref,
+            tokref_ranges,
             poisoned: Default::default(),
             lexer_err_groups: Default::default(),
             next_group: std::sync::atomic::AtomicUsize::new(1),
@@ -1720,6 +1749,8 @@ impl<'a> Exec<'a> {
         let eos_all = self.ctx.world.eos_all();
         let kk = if reset { n } else { k };
         let over_eos = kk > 0 && kk <= n && s.hist[n - kk..].iter().any(|t| eos_all.contains(t));
+        // ordinary (text) tokens in the rolled-back range that a <[...]> expression of the grammar names
+        let rolled: Vec<TokenId> = if kk > 0 && kk <= n { s.hist[n - kk..].to_vec() } else { vec![] };
         let m = match &mut s.h {
             H::M(m) => m,
             _ => return Ok(()),
@@ -1759,6 +1790,27 @@ impl<'a> Exec<'a> {
                     }
                 }
                 self.ev(format!("rollback h{h} {keff} ok"));
+                let over_named_text_token = !self.ctx.tokref_ranges.is_empty()
+                    && rolled.iter().any(|t| {
+                        (*t as usize) < self.ctx.n_vocab()
+                            && !self.ctx.is_special(*t)
+                            && self.ctx.tokref_ranges.iter().any(|(lo, hi, neg)| {
+                                let inside = (*t as u64) >= *lo && (*t as u64) <= *hi;
+                                inside != *neg
+                            })
+                    });
+                if keff > 0 && over_named_text_token && self.fault_free_or_c20() {
+                    // known finding F17: an ordinary token that the grammar consumed through a token
+                    // range is stored as \xFF[id] in the parser but rolled back by its own byte length
+                    self.stats.probe("rollback_over_text_token_named_by_range");
+                    if let Err(mut v) = self.chk_fresh(h) {
+                        if v.oracle == "fresh_equivalence" {
+                            v.signature = "rollback_over_text_token_in_token_range".into();
+                            v.detail = format!("after rolling back over an ordinary token named by a <[...]> expression of the grammar: {}", v.detail);
+                        }
+                        return Err(v);
+                    }
+                }
                 if keff > 0 && over_eos && self.ctx.tokref && self.fault_free_or_c20() {
                     // known finding F5: an end-of-sequence id that the *grammar* consumed as a special
                     // token (<[id]> / <|name|>) is rolled back as 0 bytes. Only grammars that reference
